@@ -8,6 +8,12 @@
 
 #include <asmjit/support/support.h>
 
+#if defined(ASMJIT_VERIF)
+//! Verification hook (only compiled with ASMJIT_VERIF): when set, it's asked before every arena request whether
+//! the request must fail (return nullptr). Used to reach every out-of-memory path of arena users.
+extern "C" ASMJIT_API bool (*asmjit_verif_arena_fault)(void);
+#endif
+
 ASMJIT_BEGIN_NAMESPACE
 
 //! \addtogroup asmjit_support
@@ -316,6 +322,12 @@ public:
   [[nodiscard]]
   ASMJIT_INLINE T* alloc_oneshot(size_t size) noexcept {
     ASMJIT_ASSERT(Support::is_aligned(size, kAlignment));
+
+#if defined(ASMJIT_VERIF)
+    if (asmjit_verif_arena_fault && asmjit_verif_arena_fault()) {
+      return nullptr;
+    }
+#endif
 
 #if defined(__GNUC__)
     // We can optimize this function a little bit if we know that `size` is relatively small - which would mean
